@@ -11,6 +11,8 @@ import (
 	"fmt"
 	"strconv"
 	"strings"
+	"sync/atomic"
+	"time"
 
 	"github.com/LiskHQ/lisk-engine/pkg/db"
 	"github.com/LiskHQ/lisk-engine/pkg/trie/rmt"
@@ -38,6 +40,39 @@ func (m mapDB) Get(k []byte) ([]byte, bool) {
 }
 func (m mapDB) Del(k []byte)    { delete(m, string(k)) }
 func (m mapDB) Set(k, v []byte) { m[string(k)] = append(make([]byte, 0, len(v)), v...) }
+
+// rwLoops is set once CalculateRootFromRightWitness was seen not to terminate.
+var rwLoops atomic.Bool
+
+// rwTerminates replays the control flow of CalculateRootFromRightWitness on list lengths only and
+// reports whether both lists are consumed within 64 layers.
+func rwTerminates(nodeIndex uint64, nap, nrw int) bool {
+	if nap == 0 || nrw == 0 {
+		return true
+	}
+	nap--
+	nrw--
+	inc := nodeIndex
+	initDone := false
+	for layer := uint(0); layer < 64; layer++ {
+		if nap == 0 && nrw == 0 {
+			return true
+		}
+		if nap > 0 && (nodeIndex>>layer)&1 == 1 {
+			if !initDone {
+				inc += 1 << layer
+				initDone = true
+			} else {
+				nap--
+			}
+		}
+		if nrw > 0 && (inc>>layer)&1 == 1 {
+			nrw--
+			inc += 1 << layer
+		}
+	}
+	return nap == 0 && nrw == 0
+}
 
 type runner struct {
 	store    rmt.Database
@@ -585,7 +620,33 @@ func (r *runner) step(op string) string {
 	case "rwraw":
 		// CalculateRootFromRightWitness on arbitrary (possibly malformed) input: must terminate
 		i, _ := strconv.ParseUint(w[1], 10, 64)
-		return corr.Hex(rmt.CalculateRootFromRightWitness(i, unHexList(w[2]), unHexList(w[3])))
+		ap, rw := unHexList(w[2]), unHexList(w[3])
+		if !rwTerminates(i, len(ap), len(rw)) && rwLoops.Load() {
+			// already observed on this build: the loop never ends on such input; do not spawn another spinning goroutine
+			r.fail("right-witness-no-termination", op)
+			return "timeout"
+		}
+		ch := make(chan []byte, 1)
+		go func() {
+			defer func() {
+				if e := recover(); e != nil {
+					ch <- []byte("panic")
+				}
+			}()
+			ch <- rmt.CalculateRootFromRightWitness(i, ap, rw)
+		}()
+		select {
+		case res := <-ch:
+			if string(res) == "panic" {
+				r.fail("rwraw-panic", op)
+				return "panic"
+			}
+			return corr.Hex(res)
+		case <-time.After(2 * time.Second):
+			rwLoops.Store(true)
+			r.fail("right-witness-no-termination", op)
+			return "timeout"
+		}
 	case "specpath":
 		pos, _ := strconv.Atoi(w[1])
 		if pos >= len(r.hashes) {
